@@ -399,7 +399,8 @@ pub fn fax_decode(data: &[u8], params: &CCITTFaxDecodeParams) -> Result<Vec<u8>>
         }
 
         let height = if params.rows == 0 { None } else { Some(params.rows as u16)};
-        let mut buf = Vec::with_capacity(columns * rows);
+        // the header may promise far more than the data delivers: reserve a bounded amount, the vector grows as needed
+        let mut buf = Vec::with_capacity((columns * rows).min(1 << 24));
         decode_g4(data.iter().cloned(), columns as u16, height, |line| {
             buf.extend(pels(line, columns as u16).map(|c| match c {
                 Color::Black => 0,
